@@ -820,6 +820,9 @@ func main() {
 		x.explore(f.depth, alphabetOf(f.ops))
 		names = append(names, fmt.Sprintf("focused(depth %d): %s", f.depth, strings.Join(f.ops, " ")))
 	}
+	if *fProp == "C14" {
+		x.gcUnderLongLivedProject(r)
+	}
 	if *fProp == "C18" {
 		n := 7
 		if r.Thorough() {
